@@ -244,6 +244,26 @@ Definition decoder_extra_size_12 : N := 16960.
 Definition decoder_max_read_13 : N := 256.
 Definition decoder_block_size_13 : N := 8192.
 Definition decoder_extra_size_13 : N := 8840.
+Definition mb_OUTPUT_BUFFER_SIZE : N := 4096.
+Definition mb_MAC_TIME_OFFSET : N := 2082844800.
+Definition mb_MBHDR_SIZE : N := 128.
+Definition mb_MBHDR_OFF_VERSION : N := 0.
+Definition mb_MBHDR_OFF_FILENAME_LEN : N := 1.
+Definition mb_MBHDR_OFF_FILENAME : N := 2.
+Definition mb_MBHDR_LEN_FILENAME : N := 63.
+Definition mb_MBHDR_OFF_ZERO_COMPAT1 : N := 74.
+Definition mb_MBHDR_OFF_ZERO_COMPAT2 : N := 82.
+Definition mb_MBHDR_OFF_DATA_FORK_LEN : N := 83.
+Definition mb_MBHDR_OFF_RES_FORK_LEN : N := 87.
+Definition mb_MBHDR_OFF_FILE_MOD_DATE : N := 95.
+Definition mb_MBHDR_OFF_COMMENT_LEN : N := 99.
+Definition mb_MBHDR_OFF_MACBINARY2_DATA : N := 101.
+Definition mb_MBHDR_LEN_MACBINARY2_DATA : N := 27.
+Definition mb_header_extent : N := 128.
+Definition sizeof_MacBinaryDecoder : N := 152.
+Definition macbinary_max_read : N := 4096.
+Definition macbinary_block_size : N := 0.
+Definition macbinary_extra_size : N := 152.
 
 Definition crc16_table : list N :=
   [0; 49345; 49537; 320; 49921; 960; 640; 49729; 50689; 1728; 1920; 51009;
@@ -374,3 +394,19 @@ Definition decoder_name_12_len : N := 5.
 Definition decoder_name_13 : list N :=
   [45; 112; 109; 50; 45].
 Definition decoder_name_13_len : N := 5.
+Definition decoder_names_flat : list N :=
+  [45; 108; 122; 52; 45; 45; 108; 122; 53; 45; 45; 108;
+   122; 115; 45; 45; 108; 104; 48; 45; 45; 108; 104; 49;
+   45; 45; 108; 104; 52; 45; 45; 108; 104; 53; 45; 45;
+   108; 104; 54; 45; 45; 108; 104; 55; 45; 45; 108; 104;
+   120; 45; 45; 108; 107; 55; 45; 45; 112; 109; 48; 45;
+   45; 112; 109; 49; 45; 45; 112; 109; 50; 45].
+Definition decoder_names_flat_len : N := 70.
+Definition decoder_name_lens : list N :=
+  [5; 5; 5; 5; 5; 5; 5; 5; 5; 5; 5; 5;
+   5; 5].
+Definition decoder_name_lens_len : N := 14.
+Definition decoder_type_ids : list N :=
+  [0; 1; 2; 0; 3; 4; 5; 6; 7; 8; 9; 0;
+   10; 11].
+Definition decoder_type_ids_len : N := 14.
